@@ -742,6 +742,10 @@ def run(ctx):
     ctx.floor('R18.4', transmutes(ctx, 'R18.4'), 10)
     ctx.rule('R18.7', 'free #[pyfunction]s forward their parameters unchanged, in order, to the Rust function')
     ctx.floor('R18.7', free_functions(ctx, 'R18.7'), 6)
+    import misclib
+    ctx.rule('R18.8', 'the Rust conversion the bindings project is one rule: KalmanState -> BoundingBox composes the two steps '
+                      'the Python bbox() takes')
+    ctx.floor('R18.8', misclib.rule_state_to_ltwh_delegates(ctx, 'R18.8'), 1)
     ctx.rule('R18.5', 'default arguments equal the documented table and their Rust counterparts')
     ctx.floor('R18.5', defaults(ctx, 'R18.5'), 30)
 
